@@ -9,6 +9,7 @@
 #include <syslog.h>
 #include <algorithm>
 #include <functional>
+#include <set>
 
 SimFS g_fs;
 bool g_log_fs = false;
@@ -318,18 +319,30 @@ static FILE* sim_fdopen(int fd, const char* mode) {
     return fp;
 }
 
+// ------------------------------------------------------------------ pass-through ("real" backing): every path outside /sim/ goes to the kernel
+static inline bool is_sim_path(const char* p) { return p && !strncmp(p, "/sim/", 5); }
+static std::set<void*> g_simdirs;
+static void real_log(const char* kind, const char* path, long rv) {
+    g_fs.opcount[std::string("real.") + kind]++;
+    sim_yield(Y_FS);
+    char buf[48]; snprintf(buf, sizeof buf, "|%ld|", rv < 0 ? -1 : (strcmp(kind, "open") ? rv : 0));
+    hist_hash_only(std::string("rfs:") + kind + ":" + (path ? path : "") + buf);
+}
+
 // ------------------------------------------------------------------ the wraps
 extern "C" {
 
 int __wrap_open(const char* path, int flags, ...) {
     mode_t mode = 0;
     if (flags & O_CREAT) { va_list ap; va_start(ap, flags); mode = va_arg(ap, int); va_end(ap); }
+    if (!is_sim_path(path)) { int fd = __real_open(path, flags, mode); real_log("open", path, fd); return fd; }
     return sim_open(path, flags, mode);
 }
 
-FILE* __wrap_fdopen(int fd, const char* mode) { return sim_fdopen(fd, mode); }
+FILE* __wrap_fdopen(int fd, const char* mode) { if (fd < FD_BASE) return __real_fdopen(fd, mode); return sim_fdopen(fd, mode); }
 
 FILE* __wrap_fopen(const char* path, const char* mode) {
+    if (!is_sim_path(path)) { FILE* fp = __real_fopen(path, mode); real_log("fopen", path, fp ? 0 : -1); return fp; }
     int flags = O_RDONLY;
     if (mode[0] == 'w') flags = (strchr(mode, '+') ? O_RDWR : O_WRONLY) | O_CREAT | O_TRUNC;
     else if (mode[0] == 'a') flags = (strchr(mode, '+') ? O_RDWR : O_WRONLY) | O_CREAT | O_APPEND;
@@ -344,10 +357,11 @@ FILE* __wrap_fopen(const char* path, const char* mode) {
 int __wrap_fileno(FILE* fp) {
     auto it = g_fp2fd.find(fp);
     if (it != g_fp2fd.end()) return it->second;
-    errno = EBADF; return -1;
+    return __real_fileno(fp);
 }
 
 int __wrap_ftruncate(int fd, off_t len) {
+    if (fd < FD_BASE) { int rv = __real_ftruncate(fd, len); real_log("ftruncate", "", rv); return rv; }
     OpenFile* of = getof(fd); if (!of) { errno = EBADF; return -1; }
     Fault* flt = fs_enter("ftruncate");
     if (flt) { fs_log("ftruncate", of->path, len, 0, -1, flt->err, flt); errno = flt->err; return -1; }
@@ -365,6 +379,7 @@ static void fill_stat(const InodeP& f, struct stat* st) {
 }
 
 int __wrap_fstat(int fd, struct stat* st) {
+    if (fd < FD_BASE) { int rv = __real_fstat(fd, st); real_log("fstat", "", rv); return rv; }
     OpenFile* of = getof(fd); if (!of) { errno = EBADF; return -1; }
     Fault* flt = fs_enter("fstat");
     if (flt) { fs_log("fstat", of->path, 0, 0, -1, flt->err, flt); errno = flt->err; return -1; }
@@ -374,6 +389,7 @@ int __wrap_fstat(int fd, struct stat* st) {
 }
 
 int __wrap_lstat(const char* path, struct stat* st) {
+    if (!is_sim_path(path)) { int rv = __real_lstat(path, st); real_log("lstat", path, rv); return rv; }
     Fault* flt = fs_enter("lstat");
     if (flt) { fs_log("lstat", path, 0, 0, -1, flt->err, flt); errno = flt->err; return -1; }
     InodeP f = g_fs.lookup(path);
@@ -384,6 +400,7 @@ int __wrap_lstat(const char* path, struct stat* st) {
 }
 
 int __wrap_access(const char* path, int mode) {
+    if (!is_sim_path(path)) { int rv = __real_access(path, mode); real_log("access", path, rv); return rv; }
     sim_yield(Y_FS);
     InodeP f = g_fs.lookup(path);
     fs_log("access", path, mode, 0, f ? 0 : -1, f ? 0 : ENOENT, nullptr);
@@ -393,6 +410,7 @@ int __wrap_access(const char* path, int mode) {
 
 int __wrap_fcntl(int fd, int cmd, ...) {
     va_list ap; va_start(ap, cmd); void* arg = va_arg(ap, void*); va_end(ap);
+    if (fd < FD_BASE) { int rv = __real_fcntl(fd, cmd, arg); real_log("fcntl", "", rv); return rv; }
     OpenFile* of = getof(fd); if (!of) { errno = EBADF; return -1; }
     if (cmd != F_SETLK && cmd != F_SETLKW) { errno = EINVAL; return -1; }
     struct flock* fl = (struct flock*)arg;
@@ -424,6 +442,7 @@ int __wrap_fcntl(int fd, int cmd, ...) {
 }
 
 DIR* __wrap_opendir(const char* path) {
+    if (!is_sim_path(path)) { DIR* d = (DIR*)__real_opendir(path); real_log("opendir", path, d ? 0 : -1); return d; }
     Fault* flt = fs_enter("opendir");
     if (flt) { fs_log("opendir", path, 0, 0, -1, flt->err, flt); errno = flt->err; return nullptr; }
     InodeP d = g_fs.lookup(path);
@@ -439,10 +458,12 @@ DIR* __wrap_opendir(const char* path) {
     sd->ents.push_back({".", true}); sd->ents.push_back({"..", true});
     for (auto& n : names) sd->ents.push_back({n, d->ents[n]->isdir});
     fs_log("opendir", path, 0, 0, (long)names.size(), 0, nullptr);
+    g_simdirs.insert(sd);
     return (DIR*)sd;
 }
 
 struct dirent* __wrap_readdir(DIR* dp) {
+    if (!g_simdirs.count(dp)) return __real_readdir(dp);
     SimDir* sd = (SimDir*)dp;
     Fault* flt = fs_enter("readdir");
     if (flt) { fs_log("readdir", sd->path, sd->pos, 0, -1, flt->err, flt); errno = flt->err; return nullptr; }
@@ -454,9 +475,10 @@ struct dirent* __wrap_readdir(DIR* dp) {
     return &sd->de;
 }
 
-int __wrap_closedir(DIR* dp) { SimDir* sd = (SimDir*)dp; sim_yield(Y_FS); delete sd; return 0; }
+int __wrap_closedir(DIR* dp) { if (!g_simdirs.count(dp)) return __real_closedir(dp); SimDir* sd = (SimDir*)dp; sim_yield(Y_FS); g_simdirs.erase(dp); delete sd; return 0; }
 
 int __wrap_mkdir(const char* path, mode_t mode) {
+    if (!is_sim_path(path)) { int rv = __real_mkdir(path, mode); real_log("mkdir", path, rv); return rv; }
     Fault* flt = fs_enter("mkdir");
     if (flt) { fs_log("mkdir", path, mode, 0, -1, flt->err, flt); errno = flt->err; return -1; }
     InodeP par; std::string leaf;
@@ -485,9 +507,9 @@ static int sim_unlink_any(const char* kind, const char* path, bool want_dir, boo
     fs_log(kind, path, 0, 0, 0, 0, nullptr);
     return 0;
 }
-int __wrap_rmdir(const char* path) { return sim_unlink_any("rmdir", path, true, false); }
-int __wrap_remove(const char* path) { return sim_unlink_any("remove", path, false, true); }
-int __wrap_unlink(const char* path) { return sim_unlink_any("remove", path, false, false); }
+int __wrap_rmdir(const char* path) { if (!is_sim_path(path)) { int rv = __real_rmdir(path); real_log("rmdir", path, rv); return rv; } return sim_unlink_any("rmdir", path, true, false); }
+int __wrap_remove(const char* path) { if (!is_sim_path(path)) { int rv = __real_remove(path); real_log("remove", path, rv); return rv; } return sim_unlink_any("remove", path, false, true); }
+int __wrap_unlink(const char* path) { if (!is_sim_path(path)) { int rv = __real_unlink(path); real_log("unlink", path, rv); return rv; } return sim_unlink_any("remove", path, false, false); }
 
 void __wrap_syslog(int pri, const char* fmt, ...) {
     // captured and hashed (log text is part of the deterministic behaviour), never printed
